@@ -1359,3 +1359,27 @@ func sortFuncs(fs []*ssa.Function) {
 		return fs[i].String() < fs[j].String()
 	})
 }
+
+// isBEDecode: c decodes a big-endian integer of the given width from the start of a byte slice:
+// binary.BigEndian.UintNN(b), or a function of the module that takes one byte slice and returns a uintNN (be16(b)).
+func isBEDecode(c *ssa.Call, bits int) bool {
+	if c == nil {
+		return false
+	}
+	name := fmt.Sprintf("Uint%d", bits)
+	if o := calleeObj(c); o != nil && o.Name() == name && o.Pkg() != nil && o.Pkg().Path() == "encoding/binary" {
+		return true
+	}
+	if c.Call.IsInvoke() {
+		return false
+	}
+	h := c.Call.StaticCallee()
+	if h == nil || h.Blocks == nil || !strings.HasPrefix(funcPkgPath(h), modPath) || len(h.Params) != 1 || !isByteSlice(h.Params[0].Type()) || h.Signature.Results().Len() != 1 {
+		return false
+	}
+	b, ok := h.Signature.Results().At(0).Type().Underlying().(*types.Basic)
+	if !ok {
+		return false
+	}
+	return (bits == 16 && b.Kind() == types.Uint16) || (bits == 32 && b.Kind() == types.Uint32)
+}
